@@ -35,7 +35,8 @@ def demo_pkgs(d, meta, wt):
         rel = os.path.relpath(root, d)
         for f in sorted(files):
             if f.endswith("_test.go") and rel != ".":
-                out.append((os.path.join(rel, f), rel))   # the demo sits in a mirror of its package directory
+                pkg = rel if os.path.isdir(os.path.join(wt, rel)) else rel.replace("_", "/")
+                out.append((os.path.join(rel, f), pkg))   # the demo sits in a mirror of its package directory
     for f in sorted(os.listdir(d)):
         if not f.endswith("_test.go"):
             continue
